@@ -291,7 +291,8 @@ impl Fw {
 
     fn seed_cfg(&self, seed: usize) -> (bool, Vec<usize>) {
         match (self.mode, self.flavour) {
-            (Mode::Lists, _) => (false, vec![]),
+            // seed 1: both tokens allowed and each already used once as fee token
+            (Mode::Lists, _) => (false, if seed == 1 { vec![0, 1] } else { vec![] }),
             (Mode::Forwards, Flavour::Permissionless) => (seed % 2 == 1, vec![]),
             (Mode::Forwards, Flavour::Permissioned) => {
                 // (rich, []), (poor, []), (rich, [T1]), (rich, [T2])
@@ -654,7 +655,7 @@ impl World for Fw {
 
     fn seeds(&self) -> usize {
         match (self.mode, self.flavour) {
-            (Mode::Lists, _) => 1,
+            (Mode::Lists, _) => 2,
             (Mode::Forwards, Flavour::Permissionless) => 2,
             (Mode::Forwards, Flavour::Permissioned) => 4,
         }
@@ -697,6 +698,13 @@ impl World for Fw {
             call_mocked(&e, &fwd, "enable_fee_token", (toks[*t].clone(), m.clone()).into_val(&e)).expect("seed enable");
         }
         let inst = Inst { e, fwd, toks, tg, u, r, x, m };
+        if self.mode == Mode::Lists && seed == 1 {
+            for tok in 0..self.nt().min(2) {
+                let now = envx::now(&inst.e);
+                let op = Op::Forward { user: Who::U, tok, fee: 1, max: 5, exp: now, rel: 0, tgt: Tgt::G, f: self.tf, x: X };
+                self.exec(&inst, &op).expect("seed forward");
+            }
+        }
         let obs = self.observe(&inst).expect("observe seed");
         (inst, Model { obs, list: list.into_iter().collect() })
     }
